@@ -14,8 +14,10 @@
 #include <string>
 #include <vector>
 
+#include <csignal>
 #include <fcntl.h>
 #include <sys/mman.h>
+#include <sys/time.h>
 #include <unistd.h>
 
 namespace sim {
@@ -186,6 +188,30 @@ struct Progress {
          for (; i < 127 && label[i]; ++i) l[i] = label[i];
          l[i] = 0;
       }
+   }
+};
+
+/// CPU-time watchdog of an in-process worker: a run (one program execution / one API history) that burns more than
+/// `seconds` of CPU time (user + system, ITIMER_PROF) ends the worker with status 80, which the parent attributes to
+/// the run and step in the progress cell ("cpu_watchdog").  It stands behind the logical step budgets for loops
+/// that never reach an instrumented step.  CPU time, not wall time: a loaded machine does not trip it.
+struct Watchdog {
+   static void on_timer(int) { static const char m[] = "watchdog: CPU-time limit of one run exceeded\n"; (void)!::write(2, m, sizeof m - 1); _exit(80); }
+   static unsigned& limit() { static unsigned s = [] { const char* e = std::getenv("VERIF_WATCHDOG_S"); const int v = e ? std::atoi(e) : 0; return (unsigned)(v > 0 ? v : 20); }(); return s; }
+   static void arm()
+   {
+      static bool installed = false;
+      if (!installed) { struct sigaction sa; std::memset(&sa, 0, sizeof sa); sa.sa_handler = on_timer; sigaction(SIGPROF, &sa, nullptr); installed = true; }
+      struct itimerval it; std::memset(&it, 0, sizeof it); it.it_value.tv_sec = limit(); setitimer(ITIMER_PROF, &it, nullptr);
+   }
+   /// stops the timer; returns the CPU milliseconds the run used
+   static uint64_t disarm()
+   {
+      struct itimerval zero, old; std::memset(&zero, 0, sizeof zero); std::memset(&old, 0, sizeof old);
+      setitimer(ITIMER_PROF, &zero, &old);
+      const uint64_t left_ms = (uint64_t)old.it_value.tv_sec * 1000 + (uint64_t)old.it_value.tv_usec / 1000;
+      const uint64_t lim_ms = (uint64_t)limit() * 1000;
+      return left_ms > lim_ms ? 0 : lim_ms - left_ms;
    }
 };
 
